@@ -1448,6 +1448,113 @@ def run_manifest_following(ctx, app, client, clk, ch: Channel, rng):
         ch.errors.append(f"only {n} media URLs could be followed from the manifests")
 
 
+# ---- checklist 4 (inside C13): stored files with bytes the index does not cover -------------
+
+SHAPE_STREAM = "c13shape"
+_SHAPES: dict = {}
+
+
+def _box(name: bytes, payload: bytes = b"") -> bytes:
+    import struct
+    return struct.pack(">I4s", 8 + len(payload), name) + payload
+
+
+def _top_boxes(b: bytes):
+    import struct
+    out, p = [], 0
+    while p + 8 <= len(b):
+        size, typ = struct.unpack(">I4s", b[p:p + 8])
+        if size == 1:
+            size = struct.unpack(">Q", b[p + 8:p + 16])[0]
+        if size < 8:
+            break
+        out.append((p, size, typ))
+        p += size
+    return out
+
+
+def _ensure_shapes(app):
+    """register (once per process) a stream of stored files whose length differs from what the
+    index covers: trailing mfra/mfro, trailing free+skip, trailing uuid, trailing unparsable bytes,
+    a box before ftyp, a gap between the init segment and the first fragment.  → {stem: info}
+    with the stored bytes and the landmarks of the index (init end, first fragment, indexed end)"""
+    if _SHAPES:
+        return _SHAPES
+    import struct
+    import appboot
+    t1 = (appboot.FIXTURES / "bbb" / "bbb_t1.mp4").read_bytes()
+    a1 = (appboot.FIXTURES / "bbb" / "bbb_a1.mp4").read_bytes()
+    first = [p for p, _, t in _top_boxes(t1) if t in (b"moof", b"styp", b"sidx")][0]
+    mfra = _box(b"mfra", _box(b"tfra", bytes(range(56))) + _box(b"mfro", struct.pack(">II", 0, 8 + 64 + 16)))
+    variants = {
+        "shape_tail_mfra": t1 + mfra,
+        "shape_tail_free": t1 + _box(b"free", bytes(range(37))) + _box(b"skip"),
+        "shape_tail_uuid": t1 + _box(b"uuid", bytes(range(36))),
+        "shape_tail_bytes": t1 + bytes(range(1, 6)),
+        "shape_lead_free": _box(b"free", bytes(range(24))) + t1,
+        "shape_gap_free": t1[:first] + _box(b"free", bytes(range(40))) + t1[first:],
+        "shape_exact": t1,
+        "shape_tail_mfra_a1": a1 + mfra,
+    }
+    src = app.scratch / "c13shape-src"
+    src.mkdir(parents=True, exist_ok=True)
+    files = []
+    for stem, data in variants.items():
+        (src / f"{stem}.mp4").write_bytes(data)
+        files.append((stem, src / f"{stem}.mp4"))
+    app.add_stream(SHAPE_STREAM, "C13 stored shapes", files, real_index=True)
+    with app.ctx() as models:
+        for stem, data in variants.items():
+            mf = models.MediaFile.get(name=stem)
+            segs = mf.representation.segments
+            _SHAPES[stem] = {"data": data, "init_end": segs[0].pos + segs[0].size, "first": segs[1].pos,
+                             "indexed_end": segs[-1].pos + segs[-1].size, "nseg": len(segs) - 1,
+                             "blob_size": mf.blob.size}
+    return _SHAPES
+
+
+def shape_headers(info):
+    """fixed grid: every first-last / first- / -suffix combination around 0, the end of the init
+    segment, the first fragment, the end of the indexed fragments +-1 and the file length +-1"""
+    n, e = len(info["data"]), info["indexed_end"]
+    pts = sorted({v for v in (0, 1, info["init_end"] - 1, info["init_end"], info["first"] - 1, info["first"],
+                              info["first"] + 1, e - 2, e - 1, e, e + 1, e + 2, n - 2, n - 1, n, n + 1) if v >= 0})
+    hs = [None]
+    for a in pts:
+        hs.append(f"bytes={a}-")
+        hs += [f"bytes={a}-{b}" for b in pts if b >= a or b in (0, e, n - 1)]
+    for k in sorted({1, 2, 16, 17, 64, max(1, n - e - 1), max(1, n - e), n - e + 1, n - info["first"], n - 1, n, n + 1, 0}):
+        hs.append(f"bytes=-{k}")
+    return hs + SMALL_HEADERS[1:]
+
+
+def run_stored_shapes(ctx, app, client, ch: Channel, rng):
+    shapes = _ensure_shapes(app)
+    for stem, info in shapes.items():
+        if info["blob_size"] != len(info["data"]):
+            ch.errors.append(f"blob.size of {stem} differs from the stored file")
+        ch.count("stored-shape:" + ("file-longer-than-index" if len(info["data"]) > info["indexed_end"] else
+                                    "index-does-not-start-at-0" if info["init_end"] != info["first"] or stem == "shape_lead_free"
+                                    else "index-covers-file"))
+        extra = {"stored_shape": stem}
+        res = Resource("od", f"/dash/odvod/{SHAPE_STREAM}/{stem}.mp4", info["data"], True, tag="stored-shape", light=True)
+        run_resource(ctx, client, ch, res, shape_headers(info), CLOCK0, extra=extra)
+        if ctx.thorough:
+            run_resource(ctx, client, ch, res, compact_headers(ctx, res, rng), CLOCK0, extra=extra)
+        # a generated segment of the same stored file (reader positioned at a fragment)
+        for k in ((1, info["nseg"]) if ctx.thorough else (info["nseg"],)):
+            u = f"/dash/vod/{SHAPE_STREAM}/{stem}/{k}.mp4"
+            r = client.get(u)
+            if r.status_code >= 500:
+                ch.oracle_failures.append({**extra, "kind": "e2e", "url": u, "header": None, "clock": CLOCK0,
+                                           "what": f"status {r.status_code} (5xx)", "observed": {"status": r.status_code}})
+            if r.status_code == 200:
+                seg = Resource("seg", u, r.data, False, tag="stored-shape", light=True)
+                run_resource(ctx, client, ch, seg, SMALL_HEADERS + buffer_edge_headers(seg.length), CLOCK0, extra=extra)
+    if len(shapes) < 6:
+        ch.errors.append("stored-shape stream could not be registered")
+
+
 def class_state():
     """repr of the class-level (shared, mutable) attributes of the handler classes on the path"""
     from dashlive.server.requesthandler import base, media_requests
@@ -1512,6 +1619,7 @@ def run_e2e(ctx, ch: Channel):
             run_group(ctx, client, ch, tag, urls, grng, other)
         run_stream_defaults(ctx, app, client, clk, ch, ctx.rng("e2e-stream-defaults"))
         run_manifest_following(ctx, app, client, clk, ch, ctx.rng("e2e-manifests"))
+        run_stored_shapes(ctx, app, client, ch, ctx.rng("e2e-shapes"))
         # re-issue earlier requests at the end of the whole history, against a fresh full representation
         for res in [r for r in resources if r.kind == "seg"][:3] + [r for r in resources if r.kind == "od"][:1]:
             fresh = res.full if res.kind == "od" else other.get(res.url).data
@@ -1570,7 +1678,9 @@ def channels(ctx):
         "is a failure; small header set on every pair, compact/full set on a seeded sample; plus sub-second phases, far "
         "past/future clocks, stream ages around the time-shift depth and loop boundaries. A stream with stored stream "
         "defaults requested without options; media URLs and on-demand byte ranges followed exactly as the manifests "
-        "spell them; a second client; earlier requests re-issued at the end. "
+        "spell them; a second client; earlier requests re-issued at the end. Stored files whose length/layout differs from "
+        "the index (trailing mfra/free/uuid/bytes, box before ftyp, gap after the init segment): fixed grid of ranges "
+        "around 0, init end, first fragment, indexed end +-2, file length +-1 and suffixes. "
         "non-trivial = 206 or 416; distinct by (url, header[, preceding url])"))
     try:
         run_e2e(ctx, ch2)
@@ -1615,9 +1725,14 @@ def run_case(case):
         client = app.client()
         with appboot.Clock(_utc(case.get("clock") or CLOCK0)):
             url = case["url"]
+            if f"/{SHAPE_STREAM}/" in url:
+                _ensure_shapes(app)
             if "/odvod/" in url:
                 parts = url.split("?")[0].split("/")
-                full = _fixture_path(parts[3], parts[4].rsplit(".", 1)[0]).read_bytes()
+                if parts[3] == SHAPE_STREAM:
+                    full = _SHAPES[parts[4].rsplit(".", 1)[0]]["data"]
+                else:
+                    full = _fixture_path(parts[3], parts[4].rsplit(".", 1)[0]).read_bytes()
                 res = Resource("od", url, full, True)
             else:
                 if url.startswith("/mps/"):
@@ -1675,6 +1790,10 @@ def search(ctx, disagreements):
                 o, why = judge_e2e(client, res, h)
                 if why is not None:
                     return e2e_failure(client, res, h, why, o)
+        probe = Channel("search-shapes")
+        run_stored_shapes(ctx, app, client, probe, rng)
+        if probe.oracle_failures:
+            return probe.oracle_failures[0]
         probe = Channel("search-groups")
         for tag, urls in sibling_groups(ctx, app, client):
             run_group(ctx, client, probe, tag, urls, rng)
@@ -1688,7 +1807,7 @@ def replay(ctx, payload):
     if "header" not in f and "header_repeat" not in f:
         return {"fails": False, "note": "replay names a broken obligation, no input", "payload": payload.get("broken")}
     fails, det = run_case(f)
-    return {"fails": fails, "case": {k: f.get(k) for k in ("kind", "url", "header", "length", "clock", "history", "stream_defaults") if k in f}, **det}
+    return {"fails": fails, "case": {k: f.get(k) for k in ("kind", "url", "header", "length", "clock", "history", "stream_defaults", "stored_shape") if k in f}, **det}
 
 
 def replay_finding(ctx, finding):
